@@ -6,6 +6,7 @@ of the classifying queries of `common/pauli_string_collection.py`
 Collections are values here; the cached, mutable collection is `Model/Coll.lean`.
 -/
 import PauLieVerif.Model.Morph
+import PauLieVerif.Model.MorphRec
 import PauLieVerif.Model.Closure
 
 namespace PauLie
@@ -143,6 +144,50 @@ def classify (gens : List PS) : Except Err (List MorphR) := do
     let r ← Morph.build sub
     return ⟨r.legs, r.dependents, r.unappended, r.tags, r.complete⟩)
 
+/-- one reduction of the recording builder: the morph and the frames it wrote -/
+structure RecR where
+  sub : List PS                 -- the generators of the component
+  morph : MorphR
+  frames : List MorphRec.Frame
+  deriving Repr, Inhabited
+
+/-- the text `Classification.get_algebra()` returns for a classification holding this single morph
+(`nc = 0` would make Python print the float 0.5) -/
+def algebraTextOfMorph (legs : List (List PS)) : Except Err String := do
+  let (ty, nc, size) ← getAlgebraProperties legs
+  let name := s!"{ty.name}({size})"
+  return (if nc == 1 then name else if nc == 0 then "0.5*" ++ name else s!"{2 ^ (nc - 1)}*{name}")
+
+/-- `PauliStringCollection.classify()` with a recorder attached: one
+`RecordingMorphFactory` per connected component, all writing into the same
+record.  The closing frame of `RecordingMorphFactory.build` needs
+`Classification.get_algebra()` of the component's morph and is added here; an
+exception of that call propagates out of `classify`. -/
+def classifyRec (gens : List PS) : Except Err (List RecR) := do
+  let subs ← Graph.getSubgraphs gens
+  subs.mapM (fun sub => do
+    let r ← MorphRec.buildRec sub
+    let alg ← algebraTextOfMorph r.legs
+    return ⟨sub, ⟨r.legs, r.dependents, r.unappended, r.tags, r.complete⟩,
+            r.frames ++ [⟨s!"Algebra: {alg}", some r.legs.flatten, false⟩]⟩)
+
+/-- position in the generator list of the first member of a component -/
+def firstIndex (gens sub : List PS) : Nat :=
+  (sub.filterMap (fun v => gens.findIdx? (fun g => g.beq v))).foldl min gens.length
+
+/-- The reduction that writes LAST into the shared record.  `get_subgraphs` orders
+the components by `sorted(nx.connected_components(g), key=len, reverse=True)`:
+size descending, equal sizes in networkx order, i.e. by first appearance of a
+member in the generator list.  So the last one is, among the smallest components,
+the one that appears last. -/
+def lastBuilt (gens : List PS) (rs : List RecR) : Option RecR :=
+  rs.foldl (fun acc r =>
+    match acc with
+    | none => some r
+    | some a =>
+      if r.sub.length < a.sub.length ||
+         (r.sub.length == a.sub.length && firstIndex gens r.sub > firstIndex gens a.sub) then some r else acc) none
+
 def verticesOf (ms : List MorphR) : List PS := (ms.map (fun m => m.legs.flatten)).flatten
 def dependentsOf (ms : List MorphR) : List PS := (ms.map (fun m => m.dependents)).flatten
 
@@ -222,15 +267,6 @@ def simpleDim : TypeAlgebra → Nat → Nat
   | .SU, m => dimSU m
   | .U, _ => 1
 
-/-- Series label separating the only non-isomorphic equal-dimension pair that
-occurs among Pauli DLAs at enumerable sizes: `so(2r+1)` (label 1, series B) vs
-`sp(r)` (label 2, series C) for r ≥ 3.  Everything else has label 0; label 3
-marks a block whose centraliser count fits neither series. -/
-def labelOfName : TypeAlgebra → Nat → Nat
-  | .SO, m => if m % 2 == 1 && m ≥ 7 then 1 else 0
-  | .SP, m => if m ≥ 3 then 2 else 0
-  | _, _ => 0
-
 /-- For a connected block of `d` basis strings per copy in which a basis string
 commutes with `cent` basis strings (per copy): a Pauli string acts on the
 algebra with ad-eigenvalues {0, ±2i}, i.e. it is a minuscule coweight; in
@@ -240,6 +276,35 @@ def labelOfBlock (d cent : Nat) : Nat :=
   match (List.range (d + 1)).find? (fun r => r ≥ 3 && r * (2 * r + 1) == d) with
   | some r => if cent == r * r then 2 else if cent == 2 * r * r - 3 * r + 2 then 1 else 3
   | none => 0
+
+/-- integer square root by Newton's iteration from above (fuel 256 covers every
+argument below 2^200; only used to *propose* a candidate that is then tested exactly) -/
+def isqrt (n : Nat) : Nat :=
+  let rec go : Nat → Nat → Nat
+    | 0, x => x
+    | fuel + 1, x => let y := (x + n / x) / 2; if y < x then go fuel y else x
+  if n == 0 then 0 else go 256 n
+
+/-- `labelOfBlock` with the candidate `r` proposed by a square root instead of a
+linear search (`r(2r+1) = d` forces `r = ⌊√(d/2)⌋`) -/
+def labelOfBlockFast (d cent : Nat) : Nat :=
+  let r := isqrt (d / 2)
+  if r ≥ 3 && r * (2 * r + 1) == d then
+    (if cent == r * r then 2 else if cent == 2 * r * r - 3 * r + 2 then 1 else 3)
+  else 0
+
+/-- Series label separating the only non-isomorphic equal-dimension pair that
+occurs among Pauli DLAs at enumerable sizes: `so(2r+1)` (label 1, series B) vs
+`sp(r)` (label 2, series C) for r ≥ 3.  Label 3 marks a block whose dimension is
+of the form r(2r+1) but whose centraliser count fits neither series: among the
+`su(2^k)` this happens exactly for `su(64)` (4095 = dim sp(45) = dim so(91); a
+Pauli string of su(m) commutes with m²/2 − 1 of the m² − 1 basis strings).
+Everything else has label 0. -/
+def labelOfName : TypeAlgebra → Nat → Nat
+  | .SO, m => if m % 2 == 1 && m ≥ 7 then 1 else 0
+  | .SP, m => if m ≥ 3 then 2 else 0
+  | .SU, m => labelOfBlockFast (dimSU m) (m * m / 2 - 1)
+  | _, _ => 0
 
 structure Inv where
   centre : Nat                       -- number of u(1) summands
